@@ -54,8 +54,14 @@ def run(R):
         b = skeleton(asy)
         from collections import Counter
         ca, cb = Counter(x for x in a if x != 'for'), Counter(x for x in b if x != 'for')
-        if a != b and (ca == cb or not known_loop_form(sync) or not known_loop_form(asy)):
-            # the same events in another arrangement (one of the two loops rewritten): equivalence of the arrangements is beyond this rule
+        # (a difference only in how many textual collect / join sites there are -- a fast path with its own return -- is not a difference in events)
+        def assembly_free(sk):
+            out = [x for i_, x in enumerate(sk) if not (x == 'append' and i_ + 1 < len(sk) and sk[i_ + 1] == 'join') and x not in ('join', 'for')]
+            return Counter(out)
+        only_assembly = assembly_free(a) == assembly_free(b)          # apart from `append` + `join` return sites the same events, equally often
+        if a != b and (ca == cb or only_assembly or not known_loop_form(sync) or not known_loop_form(asy)):
+            # the same kinds of events in another arrangement or number of textual occurrences (one of the two forms rewritten: a fast path, two
+            # return statements): equivalence of the arrangements is beyond this rule; how OFTEN each event happens per path is D1's question
             raise AnalysisError('C16-D3: the two forms make the same calls in a different textual order; cannot compare them (sync %s / async %s)' % (a, b))
         c.check(a == b, asy, None, 'same sequence of sends / waits / collects / kill / raise in both forms',
                 witness='sync %s vs async %s' % (a, b), kind='ast', tag='skeleton')
@@ -111,7 +117,12 @@ def check_collect(c, f, recv):
     apps = cfg_nodes_with_call(f, lambda k: callee_last(k) == 'append' and is_name(k.func.value, RES))
     al = set(n for n, k in apps)
     mn, mx = g.occurrences(lambda n: n in al, start=body[0], goals={hdr}, skip_labels=('exc', 'raise'))
-    okv = all(norm(k.args[0]) == '%s.child.before' % recv for n, k in apps)
+    okv = all(ctext(k.args[0], f, stale_ok=True) == '%s.child.before' % recv for n, k in apps)
+    if mn == 0 and mx == 1 and okv and apps:
+        # appended only when non-empty (`if child.before: pieces.append(child.before)`): an empty piece adds nothing to the joined text, but
+        # that is an argument about values -- not decided here
+        guards = [a_ for n_, k_ in apps for a_, v_ in conditions(g, n_) if 'before' in a_]
+        c.need(not guards, '%s: a piece is collected under a test of its own value (%s): cannot be decided' % (f.qual, guards[0] if guards else ''))
     c.check(mn == 1 and mx == 1 and okv, f, apps[0][1] if apps else loop, 'the before of every wait is collected exactly once',
             witness='min=%s max=%s; values %s' % (mn, mx, [norm(k.args[0]) for n, k in apps]), tag='collect-once')
     # order inside the iteration: wait -> collect -> send
